@@ -79,19 +79,26 @@ def run(chk):
                (3, "p,p", "a,b"), (2, "p,pph", "a,ibc"), (2, "pph,p", "iab,c"),
                (0, "pph,pph", "iab,jcd")],
     }
+    # classes whose lower class has unequal numbers of occupied and virtual
+    # indices (dip: hh below phhh, dea: pp below ppph)
+    reqs["dip"] = [(2, "hh,phhh", "ij,aklm"), (2, "phhh,hh", "aklm,ij"),
+                   (1, "phhh,phhh", "aijk,blmn")]
+    reqs["dea"] = [(2, "pp,ppph", "ab,icde"), (2, "ppph,pp", "icde,ab")]
+    reqs["dip+s"] = [(1, "hh,phhh", "ij,aklm"), (1, "phhh,hh", "aklm,ij")]
+    reqs["dea+s"] = [(1, "pp,ppph", "ab,icde")]
     if not quick:
         reqs["pp"] += [(2, "pphh,pphh", "ijab,klcd")]
         reqs["pp+s"] += [(2, "pphh,ph", "ijab,kc"), (2, "ph,pphh", "ia,jkbc")]
         reqs["ip"] += [(2, "phh,phh", "ija,klb")]
         reqs["ea"] += [(4, "p,p", "a,b"), (1, "pph,pph", "iab,jcd"),
                        (2, "pph,pph", "iab,jcd")]
-        reqs["dip"] = [(0, "hh,hh", "ij,kl"), (1, "hh,hh", "ij,kl"),
-                       (2, "hh,hh", "ij,kl")]
-        reqs["dea"] = [(0, "pp,pp", "ab,cd"), (2, "pp,pp", "ab,cd")]
+        reqs["dip"] += [(0, "hh,hh", "ij,kl"), (1, "hh,hh", "ij,kl"),
+                        (2, "hh,hh", "ij,kl")]
+        reqs["dea"] += [(0, "pp,pp", "ab,cd"), (2, "pp,pp", "ab,cd")]
     gs_s = GroundState(Operators("mp"), first_order_singles=True)
     for variant, lst in reqs.items():
-        isr = IntermediateStates(gs_s, "pp") if variant == "pp+s" else \
-            IntermediateStates(gs, variant)
+        isr = IntermediateStates(gs_s, variant[:-2]) if variant.endswith("+s") \
+            else IntermediateStates(gs, variant)
         for (order, block, indices) in lst:
             what = f"IntermediateStates({variant}).overlap_isr({order}, '{block}', '{indices}')"
             res, exc = guarded(isr.overlap_isr, order, block, indices)
